@@ -280,7 +280,7 @@ def oracle_generation(sess, g, ig, create, prev_done):
         return ("participants never became quiescent (watchdog, reproduced with 2x the time)", None)
     if proviso and end.startswith("END deadlock") and ig["steps"]:
         last = ig["steps"][-1]
-        if int(last.split()[2]) == 0 and " Blk" in last.partition(" | ")[2] and decs == c0 + adds and decs > 0:
+        if int(last.split()[2]) == 0 and " Blk" in last.partition(" | ")[2] and decs == c0 + adds:
             return ("all %d expected submissions arrived but a waiter is still blocked" % decs, None)
     return None
 
